@@ -450,6 +450,10 @@ def run(repo: Repo, rep, tier: str):
     rep.assume("backtest mode predicates (is_live False, ...) are constants of the session")
     rep.assume("hooks, exchange ledgers and candle storage are abstract event sinks in the matching-loop runs")
     rep.guarded(check_includes, repo, rep)
+    # an order that stays ACTIVE across a strategy reset (submitted before a filter rejects the entry, or inside on_cancel) must stay in
+    # the list the matcher reads - or it is "left unfilled at the end of a minute whose range contained its price"
+    from props.c05 import check_cancel_hook_submission
+    rep.guarded(check_cancel_hook_submission, repo, rep, "C02-R9")
     rep.guarded(check_jump_fix, repo, rep)
     rep.guarded(check_session_rules, repo, rep, tier)
     rep.guarded(check_match_loop, repo, rep, tier)
